@@ -749,7 +749,7 @@ val unm_adj : gv -> madj0 option res
 
 val unm_adjs : gv -> madj0 option list res
 
-val unm_setup : gv -> (string * string list option) list res
+val unm_setup : gv -> (string * string list option) list option res
 
 val unm_matrix : gv -> matrix0 option res
 
